@@ -103,7 +103,30 @@ theorem snapKey_spec (reclaim : Bool) (name : Bytes) (s : SnapSt) (k : Bytes) (e
     | false => simpa using key _ _ _ (by simp [hst])
   | deleted =>
     simp only []
-    cases reclaim <;> simp [hw]
+    cases reclaim with
+    | false => simp [hw]
+    | true =>
+      have hgv : s.db.getValue k = some e := hg
+      simp only [Bool.not_true, Bool.false_eq_true, if_false, hgv, hst, if_true]
+      refine ⟨?_, ⟨AL.noDupKeys_erase _ _ hw.nodup, ?_, ?_⟩, ?_⟩
+      · rw [view_erase]
+        funext k'
+        simp only [fupd]
+        by_cases h : k' = k
+        · subst h; simp [Db.view, hg, Entry.live, hst]
+        · simp [h]
+      · intro k' e' hg' hd
+        simp only [AL.get?_erase] at hg'
+        split at hg'
+        · simp at hg'
+        · exact hw.tomb k' e' hg' hd
+      · intro k' e' hg'
+        simp only [AL.get?_erase] at hg'
+        split at hg'
+        · simp at hg'
+        · exact hw.ver k' e' hg'
+      · intro k' hne
+        exact AL.get?_erase_other _ (fun h => hne h.symm)
 
 theorem snapFold_spec (reclaim : Bool) (name : Bytes) :
     ∀ (todo : List (Bytes × Entry)) (s : SnapSt),
@@ -144,9 +167,10 @@ theorem snapshotDb_view (db : Db) (fs : Fs) (reclaim : Bool) (order : List Bytes
 /-- entries keep their value and version through a snapshot; only status, addresses and op id move -/
 def SameData (m m' : KV) : Prop :=
   ∀ k, match AL.get? m k, AL.get? m' k with
-    | some x, some x' => x'.version = x.version ∧ x'.value = x.value
+    | some x, some x' => x'.version = x.version ∧ x'.value = x.value ∧ (x.state = .deleted ↔ x'.state = .deleted)
     | none, none => True
-    | _, _ => False
+    | some x, none => x.state = .deleted   -- a tombstone dropped by a reclaiming snapshot
+    | none, some _ => False
 
 theorem sameData_refl (m : KV) : SameData m m := by
   intro k; cases AL.get? m k <;> simp
@@ -158,18 +182,28 @@ theorem sameData_trans {a b c : KV} (h1 : SameData a b) (h2 : SameData b c) : Sa
 
 theorem snapKey_sameData (reclaim : Bool) (name : Bytes) (s : SnapSt) (k : Bytes) (e : Entry)
     (hg : AL.get? s.db.map k = some e) : SameData s.db.map (snapKey reclaim name s k e).db.map := by
-  have key : ∀ (va ka op : Nat), SameData s.db.map (s.db.setValueVersion k e.value e.version .ok va ka op).map := by
-    intro va ka op k'
+  have key : ∀ (va ka op : Nat), e.state ≠ .deleted → SameData s.db.map (s.db.setValueVersion k e.value e.version .ok va ka op).map := by
+    intro va ka op hnd k'
     simp only [Db.setValueVersion, AL.get?_put]
     by_cases h : k = k'
-    · subst h; simp [hg]
+    · subst h; simp [hg, hnd]
     · simp only [h, if_false]; cases AL.get? s.db.map k' <;> simp
   unfold snapKey
   cases hst : e.state with
-  | ok => cases reclaim <;> simp only [] <;> first | exact key _ _ _ | exact sameData_refl _
-  | new => exact key _ _ _
-  | updated => cases reclaim <;> simp only [] <;> exact key _ _ _
-  | deleted => cases reclaim <;> simp only [] <;> exact sameData_refl _
+  | ok => cases reclaim <;> simp only [] <;> first | exact key _ _ _ (by simp [hst]) | exact sameData_refl _
+  | new => exact key _ _ _ (by simp [hst])
+  | updated => cases reclaim <;> simp only [] <;> exact key _ _ _ (by simp [hst])
+  | deleted =>
+    cases reclaim with
+    | false => simp only []; exact sameData_refl _
+    | true =>
+      have hgv : s.db.getValue k = some e := hg
+      simp only [Bool.not_true, Bool.false_eq_true, if_false, hgv, hst, if_true]
+      intro k'
+      simp only [AL.get?_erase]
+      by_cases h : k = k'
+      · subst h; simp [hg, hst]
+      · simp only [h, if_false]; cases AL.get? s.db.map k' <;> simp
 
 theorem snapFold_sameData (reclaim : Bool) (name : Bytes) :
     ∀ (todo : List (Bytes × Entry)) (s : SnapSt),
